@@ -412,6 +412,87 @@ theorem m17mod_stream_decodes (lo : Int) (hlo : 1 ≤ lo) (σ : Dec.DState) (hm 
   rw [this]
   exact ⟨rfl, rfl⟩
 
+/-! ## BERT frames -/
+
+theorem packByteN_eq' (a b c d e f g h : Bool) :
+    ([a, b, c, d, e, f, g, h].map toN).foldl (fun t b => ((t <<< 1) % 256) ||| b) 0 = Spec.Tx.byteOfBits [a, b, c, d, e, f, g, h] := by
+  cases a <;> cases b <;> cases c <;> cases d <;> cases e <;> cases f <;> cases g <;> cases h <;> rfl
+
+theorem last5 (a b c d e : Bool) :
+    (msbBits ((([a, b, c, d, e].map toN).foldl (fun t b => ((t <<< 1) % 256) ||| b) 0 <<< 3) % 256)).take 5 = [a, b, c, d, e].map toN := by
+  cases a <;> cases b <;> cases c <;> cases d <;> cases e <;> rfl
+
+theorem byteOfBits_lt' (a b c d e f g h : Bool) : Spec.Tx.byteOfBits [a, b, c, d, e, f, g, h] < 256 := by
+  cases a <;> cases b <;> cases c <;> cases d <;> cases e <;> cases f <;> cases g <;> cases h <;> decide
+
+theorem bytesOfBits_bytes : ∀ (n : Nat) (bits : List Bool), bits.length = 8 * n → Bytes.AllBytes (Spec.Tx.bytesOfBits bits) := by
+  intro n
+  induction n with
+  | zero =>
+    intro bits h
+    have : bits = [] := List.eq_nil_of_length_eq_zero (by omega)
+    subst this; intro b hb; simp [Spec.Tx.bytesOfBits] at hb
+  | succ n ih =>
+    intro bits h
+    match bits, h with
+    | a :: b :: c :: d :: e :: f :: g :: h' :: rest, h =>
+      rw [bytesOfBits_cons8]
+      intro x hx
+      rcases List.mem_cons.mp hx with rfl | hx
+      · exact byteOfBits_lt' a b c d e f g h'
+      · exact ih rest (by simp only [List.length_cons] at h; omega) x hx
+
+/-- the 24 full data bytes `make_bert_frame` builds, read back bit by bit, are the first 192 generator bits -/
+theorem bert_repack (bs : List Bool) (h : bs.length = 197) :
+    ((bertData (bs.map toN)).take 24).flatMap msbBits = (bs.take 192).map toN := by
+  unfold bertData
+  rw [List.take_append_of_le_length (by simp), List.take_of_length_le (by simp)]
+  have hpk : (List.range 24).map (fun k => (((bs.map toN).drop (8 * k)).take 8).foldl (fun b x => ((b <<< 1) % 256) ||| x) 0) =
+      Spec.Tx.bytesOfBits (bs.take 192) := by
+    unfold Spec.Tx.bytesOfBits
+    have e : ((bs.take 192).length + 7) / 8 = 24 := by rw [List.length_take, h]; decide
+    rw [e]
+    apply List.map_congr_left
+    intro k hk
+    have hk' := List.mem_range.mp hk
+    have hl : (((bs.take 192).drop (8 * k)).take 8).length = 8 := by
+      rw [List.length_take, List.length_drop, List.length_take, h]; omega
+    obtain ⟨a, b, c, d, e', f, g, h', hc⟩ := list8 _ hl
+    have hsame : ((bs.take 192).drop (8 * k)).take 8 = (bs.drop (8 * k)).take 8 := by
+      rw [List.drop_take, List.take_take, Nat.min_eq_left (by omega)]
+    rw [← List.map_drop, ← List.map_take, ← hsame, hc]
+    exact packByteN_eq' a b c d e' f g h'
+  rw [hpk, flatMap_msb _ (bytesOfBits_bytes 24 _ (by rw [List.length_take, h]; decide)), bits_of_bytesOfBits 24 _ (by rw [List.length_take, h]; decide)]
+
+theorem bert_last (bs : List Bool) (h : bs.length = 197) :
+    (msbBits ((bertData (bs.map toN)).getD 24 0)).take 5 = (bs.drop 192).map toN := by
+  unfold bertData
+  rw [List.getD_eq_getElem?_getD, List.getElem?_append_right (by simp)]
+  simp only [List.length_map, List.length_range, Nat.sub_self, List.getElem?_cons_zero, Option.getD_some]
+  have hl : ((bs.drop 192).take 5).length = 5 := by rw [List.length_take, List.length_drop, h]; decide
+  obtain ⟨a, b, c, d, e, hc⟩ : ∃ a b c d e, (bs.drop 192).take 5 = [a, b, c, d, e] := by
+    match (bs.drop 192).take 5, hl with
+    | [a, b, c, d, e], _ => exact ⟨a, b, c, d, e, rfl⟩
+  have hd : bs.drop 192 = [a, b, c, d, e] := by
+    rw [← hc, List.take_of_length_le (by rw [List.length_drop, h]; decide)]
+  rw [← List.map_drop, ← List.map_take, hc, hd]
+  exact last5 a b c d e
+
+/-- **`make_bert_frame` + the BERT loop of `main()` emit exactly the specification's BERT frame** of the 197 generator bits -/
+theorem bertFrame_eq_spec (bs : List Bool) (h : bs.length = 197) : TxMod.bertFrame (bs.map toN) = Spec.Tx.bertFrame bs := by
+  unfold TxMod.bertFrame bertFrameVals Spec.Tx.bertFrame Spec.Tx.bertFrameBits
+  simp only
+  rw [bert_repack bs h, bert_last bs h, ← List.map_append, List.take_append_drop]
+  have : ([0, 0, 0, 0] : List Nat) = [false, false, false, false].map toN := rfl
+  rw [this, ← List.map_append, encBits_eq _ 0 (by decide), flatMap_map_pairs]
+  have hce : ((Spec.convFrom (0 % 16) (bs ++ [false, false, false, false])).flatMap fun p => [p.1, p.2]) = Spec.convEncode bs := rfl
+  rw [hce, punct_eq_spec Gen.p2 C01F.p2_pos, C11.gen_p2_eq_spec]
+  have hpl : (Spec.Tx.punct Spec.p2 (Spec.convEncode bs) 368).length = 368 := by
+    rw [← C11.gen_p2_eq_spec]
+    exact C01F.punct_length Gen.p2 C01F.p2_pos bs 402 368 (by rw [h]) (by rw [C11.kept_bert.1]; omega)
+  rw [ileave_eq_spec _ hpl, randBits_eq_spec _ (C01F.ileave_length _), packBits_eq_spec _ (by rw [C01F.rnd_length _ (C01F.ileave_length _)])]
+  rfl
+
 /-! ## non-vacuity -/
 example : sendLsf ("W1AW".toList.map Char.toNat) [] 10 =
     Spec.Tx.lsfFrame (Spec.Tx.lsfBytes [] ("W1AW".toList.map Char.toNat) (Spec.Tx.voiceType 10) (List.replicate 14 0)) :=
